@@ -376,7 +376,7 @@ func (em *Emitter) op(op *Op) string {
 	case "SetDelay":
 		return fmt.Sprintf("(SetDelay %s %s)", coqStr(op.Name), coqZ(int64(op.Delay)))
 	case "Job":
-		return fmt.Sprintf("(Job %s %s %s %s %s %s)", jobCoq[op.Job], coqZ(int64(op.MinAge)), coqZ(int64(op.MaxN)), em.ids(op.Chosen), w, em.fresh(op.FreshDels))
+		return fmt.Sprintf("(Job %s %s %s %s %s %s %s)", jobCoq[op.Job], coqZ(int64(op.MinAge)), coqZ(int64(op.MaxN)), em.ids(op.Chosen), coqBool(op.Failed), w, em.fresh(op.FreshDels))
 	}
 	panic("emit: unknown op " + op.Kind)
 }
